@@ -294,7 +294,7 @@ def check_history(ctx: Ctx, hist, steps, origin):
         op = hist[i]
         sig = f"{kind}:{opname(op)}:{steps[i]['out']}"
         ctx.oracle_fail(sig, {"history": hist[: i + 1], "step": i, "op": op, "outcome": steps[i]["out"], "origin": origin,
-                              "observed": _brief(steps[i]["obs"]), "detail": extra}, what)
+                              "cached": origin.endswith("/caching_context"), "observed": _brief(steps[i]["obs"]), "detail": extra}, what)
 
     for i, (op, st) in enumerate(zip(hist, steps)):
         out, obs = st["out"], st["obs"]
@@ -462,10 +462,12 @@ def ccase(hist, steps):
 
 
 # =================================================================================================
-def execute(ctx: Ctx, hists, full=True, chunk=2, timeout=900):
+def execute(ctx: Ctx, hists, full=True, chunk=2, timeout=900, cached=None):
     """Run histories on the real registry in worker subprocesses; returns list of steps (None when the worker hung
     or crashed, which is reported)."""
-    payloads = [{"histories": hists[i:i + chunk], "ncoll": NCOLL, "ntype": NTYPE, "full": full} for i in range(0, len(hists), chunk)]
+    cached = cached or [False] * len(hists)
+    payloads = [{"histories": hists[i:i + chunk], "ncoll": NCOLL, "ntype": NTYPE, "full": full, "cached": cached[i:i + chunk]}
+                for i in range(0, len(hists), chunk)]
     res = parallel_workers("c02_impl", "run_histories", payloads, timeout=timeout)
     out = []
     for pl, (status, r) in zip(payloads, res):
@@ -514,7 +516,24 @@ def run(ctx: Ctx):
         for k in range(nh):
             hists.append(gen_history(ctx.rng, ln if k % 5 else ln // 2))
             origins.append(f"seed{ctx.seed}/{k}")
-    results = execute(ctx, hists, chunk=2 if ctx.quick else 1)
+    # every third generated history, and a second copy of every corpus history, runs inside one registry caching context
+    # (Registry.caching_context(), also entered by Butler.import_ / transfer_from / export): same model, same oracle --
+    # a client must see its own completed writes through its caches
+    cached = [False] * len(hists)
+    if not ctx.replay:
+        for k in range(ncorpus, len(hists)):
+            if (k - ncorpus) % 3 == 2:
+                cached[k] = True
+                origins[k] += "/caching_context"
+        for k in range(ncorpus):
+            hists.append(hists[k])
+            origins.append(origins[k] + "/caching_context")
+            cached.append(True)
+    else:
+        cached = [bool(j.get("cached"))]
+    for c in cached:
+        ctx.hist("mode", "caching_context" if c else "plain")
+    results = execute(ctx, hists, chunk=2 if ctx.quick else 1, cached=cached)
 
     cases, meta = [], []
     any_fail = False
